@@ -309,3 +309,14 @@ Proof.
   - congruence.
   - subst. congruence.
 Qed.
+
+(** keep the map operations folded under [simpl] *)
+#[global] Arguments aget : simpl never.
+#[global] Arguments aput : simpl never.
+#[global] Arguments adel : simpl never.
+#[global] Arguments kget : simpl never.
+#[global] Arguments kput : simpl never.
+#[global] Arguments kdel : simpl never.
+#[global] Arguments sget : simpl never.
+#[global] Arguments sput : simpl never.
+#[global] Arguments sdel : simpl never.
